@@ -362,6 +362,37 @@ def worker(item: Any, res: runner.Result) -> None:  # pylint: disable=too-many-l
         except BaseException as e:  # pylint: disable=broad-except
             res.violation("C12.construct-crash", item, order=[list(p) for p in order], error=repr(e))
         res.count("orders_tried")
+    # the same functions built through a group configuration (one contract listing all of them, in both
+    # listing orders): each name must denote the function of its own dispatch path
+    if len(alone) >= 1:
+        import os  # pylint: disable=import-outside-toplevel
+        from pathlib import Path  # pylint: disable=import-outside-toplevel
+        from tealer.utils.command_line.common import init_tealer_from_config  # pylint: disable=import-outside-toplevel
+        from tealer.utils.command_line.group_config import GroupConfig, GroupConfigContract, GroupConfigFunction  # pylint: disable=import-outside-toplevel
+
+        d = os.environ.get("TEALER_ROOT_OUTPUT_DIR", os.path.join(runner.WORK_DIR, "c12"))
+        os.makedirs(d, exist_ok=True)
+        fpath = os.path.join(d, f"c12-{os.getpid()}.teal")
+        with open(fpath, "w", encoding="utf-8") as fh:
+            fh.write(src)
+        pids = sorted(alone)[:8]
+        for order_ in (pids, list(reversed(pids))) if len(pids) > 1 else (pids,):
+            fcfgs = [GroupConfigFunction("f_" + "_".join(map(str, pid)), [f"B{i}" for i in pid]) for pid in order_]
+            ctype = "LogicSig" if "LogicSig" in str(teal.contract_type) else "ApprovalProgram"
+            cfg = GroupConfig("g", [GroupConfigContract("c", Path(fpath), ctype, 8, [], fcfgs)], [])
+            try:
+                harness.clear_caches()
+                with harness.capture():
+                    tl = init_tealer_from_config(cfg)
+                fns = tl.contracts["c"].functions
+                res.count("config_functions_built", len(fcfgs))
+                for pid in order_:
+                    got = fns.get("f_" + "_".join(map(str, pid)))
+                    if got is None or function_snapshot(got) != alone[pid]:
+                        res.violation("C12.config-function-is-not-its-dispatch-path", item, path=list(pid), listed=[list(x) for x in order_])
+                        break
+            except BaseException as e:  # pylint: disable=broad-except
+                res.violation("C12.construct-crash", item, listed=[list(x) for x in order_], error=repr(e), route="init_tealer_from_config")
     res.outcome((len(paths), tuple(sorted(alone))))
     if len(paths) > 1:
         res.mark_nontrivial(src)
